@@ -364,6 +364,23 @@ Definition sloc (w : w4) (x : mref) : option (w4 * (bool * nat)) :=
             end
   end.
 Definition same_loc (a b : bool * nat) : bool := Bool.eqb (fst a) (fst b) && Nat.eqb (snd a) (snd b).
+(* dense MdotM when r shares storage with b: column buffer t3.  for j { for i { t3[i] = sum_q a[i,q] b[q,j] };
+   for i { r[i,j] = t3[i] } } — the reads see the CURRENT content.  This is harmless when only b is r (column j of
+   b is needed for column j of the result only), but when a is r too (r.MdotM(r, r), known finding F-MDOTM-RR) the
+   columns of the LEFT factor already overwritten are read for the later columns.  [d] is the one row-major list that
+   is r, a and b at once (n x n, n = m1 = m). *)
+Definition rab_alias (k : nat) (a b : mref) : bool :=
+  match a, b with XD ka, XD kb => Nat.eqb ka k && Nat.eqb kb k | _, _ => false end.
+Definition col_buf (d : list Z) (n m1 m j : Z) : list Z :=
+  map (fun i => fold_left (fun acc q => acc + nth (Z.to_nat (i * m1 + q)) d 0 * nth (Z.to_nat (q * m + j)) d 0)
+                          (zseq 0 (Z.to_nat m1)) 0) (zseq 0 (Z.to_nat n)).
+Fixpoint col_flush (t3 : list Z) (i j m : Z) (d : list Z) : list Z :=
+  match t3 with [] => d | v :: rest => col_flush rest (i + 1) j m (upd (Z.to_nat (i * m + j)) v d) end.
+Fixpoint mdot_cols (cnt : nat) (j : Z) (d : list Z) (n m1 m : Z) : list Z :=
+  match cnt with
+  | O => d
+  | S c => mdot_cols c (j + 1) (col_flush (col_buf d n m1 m j) 0 j m d) n m1 m
+  end.
 
 Definition step4 (y : ty) (w : w4) (o : mop4) : w4 * (Z * list Z) :=
   let s := sw (b3 w) in
@@ -521,14 +538,18 @@ Definition step4 (y : ty) (w : w4) (o : mop4) : w4 * (Z * list Z) :=
               end
           end
       | XD k =>
-          (* dense receiver: row buffer (column buffer when r and b share storage) *)
+          (* dense receiver: row buffer (column buffer when r and b share storage): both schedules give the
+             closed form computed from the old world — except when r is a AND b *)
           match sloc w r with
           | None => panic w
           | Some (w1, lr) =>
               match sloc w1 b with
               | None => panic w1
               | Some (w2, lb) =>
-                  okm (setdm w2 k (map (fun i => dotrow w2 a b m1 m2 (i / m) (i mod m)) (zseq 0 (Z.to_nat (n * m)))))
+                  if rab_alias k a b
+                  then (* r.MdotM(r, r): the column-buffered schedule on the one shared list (F-MDOTM-RR) *)
+                       okm (setdm w2 k (mdot_cols (Z.to_nat m) 0 (fst (fst (getdm w2 k))) n m1 m))
+                  else okm (setdm w2 k (map (fun i => dotrow w2 a b m1 m2 (i / m) (i mod m)) (zseq 0 (Z.to_nat (n * m)))))
               end
           end
       end
